@@ -168,6 +168,7 @@ def c19(rep, tier):
     p = P("all")
     r_partials.run_store_matrix(p, rep)
     r_partials.run_eager_shape(p, rep)
+    r_partials.run_eager_all_names(p, rep)
     r_partials.run_compile_never_fails(p, rep)
     r_partials.run_pipeline(p, rep)
     r_partials.run_name_keyed(p, rep)
@@ -347,6 +348,8 @@ def c17(rep, tier):
     r_table.run_directives(p, rep)
     r_table.run_fmt_numeric(p, rep)
     r_table.run_sign(p, rep)
+    r_table.run_parse_formats(p, rep)
+    r_table.run_case_flag(p, rep)
     r_table.run_date_formats(p, rep)
     r_table.run_date_cmp(p, rep)
     import r_strslice
